@@ -11,6 +11,8 @@ use std::time::{Duration, Instant};
 #[derive(Clone, Debug)]
 enum Act {
   Alloc(u32, bool), // size, handover (not tracked as owned)
+  AllocTyped(String),
+  AllocAligned(u32, String),
   FreeSlot(usize),
   ForgetSlot(usize),
   CheckSlot(usize),
@@ -184,6 +186,31 @@ fn run_prog(owned: Arena, tid: usize, prog: &[Act], pat: u8, dofs: u32, cap: u32
         }
         Err(_) => break 'prog,
       },
+      Act::AllocTyped(_) | Act::AllocAligned(_, _) => {
+        // (offset, capacity, buffer_offset, buffer_capacity) of a typed / aligned allocation
+        let got: Result<(u32, u32, u32, u32), ()> = match a {
+          Act::AllocTyped(t) if t == "u64" => unsafe { arena.alloc::<u64>() }.map(|mut h| { let m = (h.offset() as u32, h.capacity() as u32, h.buffer_offset() as u32, h.buffer_capacity() as u32); unsafe { h.detach() }; std::mem::forget(h); m }).map_err(|_| ()),
+          Act::AllocTyped(t) if t == "u32" => unsafe { arena.alloc::<u32>() }.map(|mut h| { let m = (h.offset() as u32, h.capacity() as u32, h.buffer_offset() as u32, h.buffer_capacity() as u32); unsafe { h.detach() }; std::mem::forget(h); m }).map_err(|_| ()),
+          Act::AllocAligned(n, t) if t == "u64" => arena.alloc_aligned_bytes::<u64>(*n).map(|mut h| { let m = (h.offset() as u32, h.capacity() as u32, h.buffer_offset() as u32, h.buffer_capacity() as u32); unsafe { h.detach() }; std::mem::forget(h); m }).map_err(|_| ()),
+          Act::AllocAligned(n, t) if t == "u32" => arena.alloc_aligned_bytes::<u32>(*n).map(|mut h| { let m = (h.offset() as u32, h.capacity() as u32, h.buffer_offset() as u32, h.buffer_capacity() as u32); unsafe { h.detach() }; std::mem::forget(h); m }).map_err(|_| ()),
+          _ => panic!("unsupported type in typed/aligned allocation"),
+        };
+        match got {
+          Ok(m) => {
+            if m.1 == 0 {
+              break 'prog;
+            }
+            let lo = m.0.min(m.2);
+            let hi = (m.0 + m.1).max(m.2 + m.3);
+            own(Held { tid, lo, hi, plo: m.0, phi: m.0 + m.1 }, dofs, cap);
+            gate(None); // client::fill
+            unsafe { std::ptr::write_bytes(base.add(m.0 as usize), pat, m.1 as usize) };
+            slots[next] = Some(m);
+            next += 1;
+          }
+          Err(_) => break 'prog,
+        }
+      }
       Act::FreeSlot(j) => {
         let m = slots[ngiven + *j].expect("slot filled");
         gate(None); // client::check
@@ -270,6 +297,8 @@ fn parse(path: &str) -> Input {
           acts.push(match p[0] {
             "alloc_bytes" => Act::Alloc(p[1].parse().unwrap(), false),
             "alloc_bytes_handover" => Act::Alloc(p[1].parse().unwrap(), true),
+            "alloc_typed" => Act::AllocTyped(p[1].to_string()),
+            "alloc_aligned" => Act::AllocAligned(p[1].parse().unwrap(), p[2].to_string()),
             "free_slot" => Act::FreeSlot(p[1].parse().unwrap()),
             "forget_slot" => Act::ForgetSlot(p[1].parse().unwrap()),
             "check_slot" => Act::CheckSlot(p[1].parse().unwrap()),
